@@ -299,6 +299,74 @@ def interp_matches_gen_structure_goal : Prop :=
     generatePython L fuel t = .ok lines → render L fuel t env = .ok out →
     ∃ sem : List Line → Env → Option (List Nat), sem lines env = some out
 
+/-! ### `break` / `continue` in a body that is generated somewhere else (known finding `valid/compile-error/break-in-moved-block`)
+
+`_parse` lets `{% block %}` inherit `in_loop`, so `{% for %}{% block b %}{% break %}{% end %}{% end %}` is accepted.  The body of a block
+is generated at the position of the block `b` of the ROOT template of the `{% extends %}` chain, which may be outside every
+loop (or inside an `{% apply %}` function): the generated module then fails to compile with a `SyntaxError` that names a line
+of the generated file — not a `ParseError` naming a line of the template. -/
+
+/-- what the property demands: every template set that is accepted (no ParseError) generates a module that respects
+Python's rule for `break` / `continue` -/
+def break_inside_loop_full : Prop :=
+  ∀ (s : Settings) (srcs : List Source) (entry : Str) (lines : List Line),
+    compile s srcs entry = .code lines → loopOK lines = true
+
+def exBreakSrcs : List Source := [⟨(/-"p"-/ [112] : List Nat), (/-"{% block b %}{% end %}"-/ [123, 37, 32, 98, 108, 111, 99, 107, 32, 98, 32, 37, 125, 123, 37, 32, 101, 110, 100, 32, 37, 125] : List Nat)⟩, ⟨(/-"e"-/ [101] : List Nat), (/-"{% extends p %}{% for q in l %}{% block b %}{% break %}{% end %}{% end %}"-/ [123, 37, 32, 101, 120, 116, 101, 110, 100, 115, 32, 112, 32, 37, 125, 123, 37, 32, 102, 111, 114, 32, 113, 32, 105, 110, 32, 108, 32, 37, 125, 123, 37, 32, 98, 108, 111, 99, 107, 32, 98, 32, 37, 125, 123, 37, 32, 98, 114, 101, 97, 107, 32, 37, 125, 123, 37, 32, 101, 110, 100, 32, 37, 125, 123, 37, 32, 101, 110, 100, 32, 37, 125] : List Nat)⟩]
+
+/-- **break_inside_loop_refuted**: `p` = `{% block b %}{% end %}`, `e` = `{% extends p %}{% for q in l %}{% block b %}{% break %}{% end %}{% end %}`:
+both files parse, the generated module has `break` directly under `def _tt_execute():` -/
+theorem break_inside_loop_refuted : ¬ break_inside_loop_full := by
+  intro h
+  have key : (match compile ⟨none, none⟩ exBreakSrcs (/-"e"-/ [101] : List Nat) with | .code lines => loopOK lines | _ => true) = false := by rfl
+  cases hc : compile ⟨none, none⟩ exBreakSrcs (/-"e"-/ [101] : List Nat) with
+  | code lines =>
+    rw [hc] at key
+    simp only [] at key
+    rw [h _ _ _ lines hc] at key
+    cases key
+  | parseError f e => rw [hc] at key; cases key
+  | genError e => rw [hc] at key; cases key
+
+/-- **break_inside_loop_partial** (what holds of the current code, side condition on the generated lines): a module in
+which no line is `break` / `continue` trivially respects the rule, from any stack of open headers.  The statement one
+wants instead — side condition on the *sources*: no `{% block %}` body has a `break` / `continue` that is not inside a loop of
+that body — is `break_inside_loop_goal` (open; the check decides it on every case through CPython's own verdict). -/
+theorem break_inside_loop_partial (lines : List Line) (stack : List (Nat × Str))
+    (h : ∀ l ∈ lines, (l.code == (/-"break"-/ [98, 114, 101, 97, 107] : List Nat) || l.code == (/-"continue"-/ [99, 111, 110, 116, 105, 110, 117, 101] : List Nat)) = false) :
+    loopOKFrom stack lines = true := by
+  induction lines generalizing stack with
+  | nil => rfl
+  | cons l ls ih =>
+    simp only [loopOKFrom, h l (List.mem_cons_self ..), Bool.false_eq_true, if_false, Bool.true_and]
+    exact ih _ (fun l' hl' => h l' (List.mem_cons_of_mem _ hl'))
+
+/-- no `break` / `continue` chunk reachable without passing a loop (`{% apply %}` bodies start afresh, like in `_parse`) -/
+def noFreeBreak : List Node → Bool
+  | [] => true
+  | .stmt s _ :: ns => !(s == (/-"break"-/ [98, 114, 101, 97, 107] : List Nat) || s == (/-"continue"-/ [99, 111, 110, 116, 105, 110, 117, 101] : List Nat)) && noFreeBreak ns
+  | .control s _ body :: ns =>
+    (hdrIsLoop (s ++ [58]) || noFreeBreak body) && noFreeBreak ns
+  | .block _ _ body :: ns => noFreeBreak body && noFreeBreak ns
+  | _ :: ns => noFreeBreak ns
+
+/-- every `{% block %}` body of a body is free of loose `break` / `continue` -/
+def blocksClosed : List Node → Bool
+  | [] => true
+  | .block _ _ body :: ns => noFreeBreak body && blocksClosed body && blocksClosed ns
+  | .control _ _ body :: ns => blocksClosed body && blocksClosed ns
+  | .apply _ _ body :: ns => blocksClosed body && blocksClosed ns
+  | _ :: ns => blocksClosed ns
+
+/-- the open part: if no block body of any loaded file has a loose `break` / `continue`, the generated module is fine -/
+def break_inside_loop_goal : Prop :=
+  ∀ (s : Settings) (srcs : List Source) (entry : Str) (L : Loader) (lines : List Line),
+    loadAll s srcs (fuelFor srcs) [entry] [] = .ok L → (∀ t ∈ L, blocksClosed t.body = true) →
+    compile s srcs entry = .code lines → loopOK lines = true
+
+-- non-vacuity: the same block inside the loop of ONE file is fine (and is what `in_loop` inheritance is for)
+example : (match compile ⟨none, none⟩ [⟨(/-"e"-/ [101] : List Nat), (/-"{% for q in l %}{% block b %}{% break %}{% end %}{% end %}"-/ [123, 37, 32, 102, 111, 114, 32, 113, 32, 105, 110, 32, 108, 32, 37, 125, 123, 37, 32, 98, 108, 111, 99, 107, 32, 98, 32, 37, 125, 123, 37, 32, 98, 114, 101, 97, 107, 32, 37, 125, 123, 37, 32, 101, 110, 100, 32, 37, 125, 123, 37, 32, 101, 110, 100, 32, 37, 125] : List Nat)⟩] (/-"e"-/ [101] : List Nat) with | .code lines => loopOK lines | _ => false) = true := by rfl
+
 /-! ### the loader: names are resolved against the mentioning file, the cache is keyed by the resolved name -/
 
 /-- every template in the cache is the parse of the source stored under the template's **own** name -/
